@@ -25,7 +25,7 @@ RULE = (
     "child change; distinct = distinct (tree fingerprint, operation, change kinds)"
 )
 ASSUMPTIONS = ["control construction: Cls(**merged fields) built in the same registry state gives 'the id a fresh construction would get' (id determinism itself is C03's subject)"]
-MUST_SEE = ["remodelled_class_duplicate", "rejected_replace_before_duplicate", "value_churn_before_duplicate", "dup_of_node_from_edited_payload", 
+MUST_SEE = ["int_given_for_float_property", "remodelled_class_duplicate", "rejected_replace_before_duplicate", "value_churn_before_duplicate", "dup_of_node_from_edited_payload", 
     "dup_tuple_depth_ge2", "dup_shared", "dup_stale_twin_in_tree", "replace_detached_with_live_twin", "replace_noncompare_only",
     "replace_child_equal_twin", "dc_replace", "control_constructions", "dup_noninit_fields",
 ]
@@ -162,6 +162,12 @@ def run_shard(ctx):
             if want in ("prop", "both") and pf:
                 f = rng.choice([f for f in pf if f.compare] or pf)
                 changes[f.name] = G.gen_value(rng, U, f, hostile=0.0)
+                ff = [x for x in pf if x.shape == "float"]
+                if ff and rng.random() < 0.5:
+                    # an int given for a float property (acceptable for float): the field holds what was given
+                    f = ff[0]
+                    changes = {f.name: rng.choice([3, 2**53 + 1, -1, 0, True])}
+                    ctx.count("int_given_for_float_property")
                 kinds.append("prop")
             if want in ("child", "both") and cf:
                 f = rng.choice(cf)
